@@ -26,6 +26,11 @@ def _raised_by_harness(tb, ex):
     finding about the repository"""
     import os
 
+    if isinstance(ex, AttributeError):
+        # the code under test asked a harness stand-in (Fake, Src, ...) for an attribute it does not model
+        mod = getattr(type(getattr(ex, "obj", None)), "__module__", "") or ""
+        if mod.split(".")[0] == "harness":
+            return True
     if not tb or not isinstance(ex, (NameError, AttributeError, TypeError, KeyError, UnboundLocalError, ImportError)):
         return False
     here = os.path.dirname(os.path.dirname(os.path.abspath(__file__)))
